@@ -182,6 +182,60 @@ def producer_consumer_grid():
                 yield ("doc", "pcb:%s:%s:%s" % (vn, pn, cn)), pre + [("let", "v", pe), ("let", "r", ce)]
 
 
+def select_arm_grid():
+    """A select whose arms have shapes that are alike but not the same — functions of one arity
+    that return different things, a tuple and a wider tuple, a list and a wider list — x the arm
+    chosen x what is done with the result. Added after a seeding agent reported that the checker
+    keeps only the first of two arms it takes for equivalent."""
+    one = I(1)
+    V = SYM("v")
+    funcs = [("list", ("func", ["v"], L(V, V))), ("pair", ("func", ["v"], T(("fst", V), ("snd", V)))), ("incr", ("func", ["v"], B("+", V, one))),
+             ("text", ("func", ["v"], S("s"))), ("same", ("func", ["v"], V))]
+    R = SYM("r")
+    uses = [("bare", R), (".fst", B(".", R, SYM("fst"))), (".0", B(".", R, I(0))), ("+1", B("+", R, one)), ("+str", B("+", R, S("x")))]
+    for (n1, f1), (n2, f2) in itertools.permutations(funcs, 2):
+        for key, default in (("a", None), ("b", None), ("z", "first"), ("z", "second")):
+            arms = [("a", f1), ("b", f2)]
+            d = None
+            if default == "first":
+                d, arms = f1, [("b", f2)]
+            elif default == "second":
+                d, arms = f2, [("a", f1)]
+            sel = ("select", SYM("mode"), d, arms)
+            for un, use in uses:
+                yield ("doc", "selarm:func:%s/%s:%s%s:%s" % (n1, n2, key, "-default-" + default if default else "", un)), [
+                    ("let", "mode", S(key)), ("let", "render", sel), ("let", "r", ("call", SYM("render"), [I(3)])), ("let", "u", use)]
+    values = [("tuple-a", T(("a", one))), ("tuple-ab", T(("a", one), ("b", I(2)))), ("tuple-b", T(("b", I(2)))), ("tuple-a-str", T(("a", S("s")))),
+              ("list-int", L(one)), ("list-int-str", L(one, S("s"))), ("list-str", L(S("s"))), ("list-empty", L())]
+    vuses = [("bare", R), (".a", B(".", R, SYM("a"))), (".b", B(".", R, SYM("b"))), (".0", B(".", R, I(0))), (".1", B(".", R, I(1))), (".a+1", B("+", B(".", R, SYM("a")), one)),
+             (".0+1", B("+", B(".", R, I(0)), one)), ("map", ("map", ("func", ["x"], SYM("x")), R))]
+    for (n1, v1), (n2, v2) in itertools.permutations(values, 2):
+        for key in ("a", "b"):
+            for un, use in vuses:
+                yield ("doc", "selarm:value:%s/%s:%s:%s" % (n1, n2, key, un)), [
+                    ("let", "mode", S(key)), ("let", "r", ("select", SYM("mode"), None, [("a", v1), ("b", v2)])), ("let", "u", use)]
+
+
+def callback_name_grid():
+    """The parameter of a map / filter / reduce callback carries the name of an outer binding that
+    is used afterwards: the callback's parameter must not change what the checker knows about the
+    outer name. (Reported by a seeding agent on the unchanged tree.)"""
+    one = I(1)
+    for outer_n, outer in (("str", S("str")), ("int", I(5)), ("list", L(S("a"))), ("tuple", T(("a", one)))):
+        after = {"str": B("+", SYM("item"), S("x")), "int": B("+", SYM("item"), one), "list": B("+", SYM("item"), L(S("b"))), "tuple": B(".", SYM("item"), SYM("a"))}[outer_n]
+        ops = [("map-id", ("map", ("func", ["item"], SYM("item")), L(one, I(2))), B("+", B(".", SYM("l"), I(0)), one)),
+               ("map-incr", ("map", ("func", ["item"], B("+", SYM("item"), one)), L(one, I(2))), B("+", B(".", SYM("l"), I(0)), one)),
+               ("map-wrap", ("map", ("func", ["item"], L(SYM("item"))), L(one, I(2))), B(".", B(".", SYM("l"), I(0)), I(0))),
+               ("filter", ("filter", ("func", ["item"], B(">", SYM("item"), one)), L(one, I(2))), B("+", B(".", SYM("l"), I(0)), one)),
+               ("reduce-item", ("reduce", ("func", ["acc", "item"], B("+", SYM("acc"), SYM("item"))), I(0), L(one, I(2))), B("+", SYM("l"), one)),
+               ("reduce-acc", ("reduce", ("func", ["item", "x"], B("+", SYM("item"), SYM("x"))), I(0), L(one, I(2))), B("+", SYM("l"), one)),
+               ("map-tuple", ("map", ("func", ["k", "item"], L(SYM("k"), SYM("item"))), T(("q", one))), SYM("l")),
+               ("map-string", ("map", ("func", ["item"], SYM("item")), S("ab")), B("+", SYM("l"), S("!")))]
+        for on, op, use in ops:
+            yield ("doc", "cbname:%s:%s" % (outer_n, on)), [("let", "item", outer), ("let", "l", op), ("let", "y", use), ("let", "z", after)]
+            yield ("doc", "cbname-first:%s:%s" % (outer_n, on)), [("let", "item", outer), ("let", "z0", after), ("let", "l", op), ("let", "y", use), ("let", "z", after)]
+
+
 def nested_call_grid():
     """let g = func (Q) => GBODY; let f = func (p) => FBODY; let r = f(ARG); where FBODY calls g and Q
     is either the same name as f's parameter or a different one. Added after the thorough C17 run
@@ -222,7 +276,15 @@ RAW_FORMS = [
     ("include-yaml-field", 'let y = include yaml "./c07data.yaml";\nlet r = y.v + 1;'),
     ("include-toml-field", 'let t = include toml "./c07data.toml";\nlet r = t.v;'),
 ]
-RAW_FILES = {"c07data.txt": "41", "c07data.json": '{"v": 41}', "c07num.json": "41", "c07list.json": "[41, 42]", "c07data.yaml": "v: 41\n", "c07data.toml": "v = 41\n"}
+RAW_FORMS += [
+    # an imported file that imports its neighbour, while a file of that name and another shape sits next to the importer
+    ("import-nested-with-decoy", 'let a = import "./c07lib/a.ucg";\nlet r = a.v;'),
+    ("import-nested-with-decoy-inline", 'let r = (import "./c07lib/a.ucg").v;'),
+    ("import-nested-missing-field-in-decoy", 'let a = import "./c07lib/c.ucg";\nlet r = a.v;'),
+]
+RAW_FILES = {"c07lib/a.ucg": 'let b = import "./b.ucg";\nlet v = b.val + 1;\n', "c07lib/b.ucg": "let val = 41;\n", "b.ucg": 'let val = "forty-one";\n',
+             "c07lib/c.ucg": 'let d = import "./d.ucg";\nlet v = d.only_here;\n', "c07lib/d.ucg": "let only_here = 1;\n", "d.ucg": "let other = 2;\n",
+             "c07data.txt": "41", "c07data.json": '{"v": 41}', "c07num.json": "41", "c07list.json": "[41, 42]", "c07data.yaml": "v: 41\n", "c07data.toml": "v = 41\n"}
 
 
 def raw_category(name, src, srv):
@@ -231,6 +293,7 @@ def raw_category(name, src, srv):
     for fn, t in RAW_FILES.items():
         fp = os.path.join(d, fn)
         if not os.path.exists(fp):
+            os.makedirs(os.path.dirname(fp), exist_ok=True)
             with open(fp, "w") as f:
                 f.write(t)
     ev = srv.req({"op": "eval", "src": src, "cwd": d})
@@ -451,6 +514,10 @@ def run(ctx):
             yield ("doc", d, st)
         for d, st in producer_consumer_grid():
             yield ("doc", d, st)
+        for d, st in select_arm_grid():
+            yield ("doc", d, st)
+        for d, st in callback_name_grid():
+            yield ("doc", d, st)
         for op in c01.OPS:
             for a in range(c01.NLEAVES):
                 for b in range(c01.NLEAVES):
@@ -480,7 +547,7 @@ def run(ctx):
     # the same comparison with --no-strict on both sides (missing fields and unset variables are
     # NULL there): documented forms, the three grids, S1 and S2
     def ns_descs():
-        for d, st in itertools.chain(documented_forms(), function_grid(), nested_call_grid(), producer_consumer_grid()):
+        for d, st in itertools.chain(documented_forms(), function_grid(), nested_call_grid(), producer_consumer_grid(), select_arm_grid(), callback_name_grid()):
             if d[1].startswith("fgrid2:"):
                 continue
             yield ("doc", d, st)
